@@ -51,6 +51,16 @@ Theorem C16_restart_index_lag :
     next_index (buf (restart s cap' true)) >= next_index (buf s) - 100.
 Proof. exact (@restart_index_lag_100). Qed.
 
+(* and with failing storage writes: exactly 100 more per flush whose write failed since the last successful persist
+   (resets persist and restarts load; the write a Record may trigger is arbitrary) *)
+Theorem C16_restart_index_lag_with_failed_flushes :
+  forall (A : Type) cap (ops : list (bop A)) cap',
+    ctl_ok ops = true ->
+    let s := run_state brun_op (binit cap) ops in
+    let g := failed_flushes (ainit cap) 0 ops in
+    0 <= g /\ next_index (buf (restart s cap' true)) > next_index (buf s) - 100 * (1 + g).
+Proof. exact (@restart_index_lag_faulty_pf). Qed.
+
 Example C16_reset_then_restart_keeps_index :
   run brun_op (binit 10) [ORecord 1 true; OReset 1000000 true; ORecord 2 true; ONext; ORestart 10 true]
   = [BUnit; BUnit; BUnit; BIdx 1000001; BIdx 1000000].
@@ -79,7 +89,7 @@ Theorem C16_follower_equals_leader_if_all_truncated :
 Proof. exact follower_equals_leader_if_all_truncated_pf. Qed.
 
 (* the code as it is resets all of them (regenerated from syncHistoryRegion on every run) *)
-Theorem C16_code_truncates : Gen_C16.full_sync_truncated = ["metas"; "stats"; "leaders"]%string.
+Theorem C16_code_truncates : Gen_C16.full_sync_truncated = ["Regions"; "RegionStats"; "RegionLeaders"]%string.
 Proof. exact full_sync_truncated_ok. Qed.
 
 (* Incremental synchronisation: the follower applies exactly the leader's change sequence, so a follower
@@ -132,6 +142,45 @@ Theorem C16_full_sync_over_stale_cache :
     forall r, In r regions -> find_id (f_cache f) (m_id (meta r)) = Some r.
 Proof. exact full_sync_impl_over_stale_cache_pf. Qed.
 
+(* ------------------------------------------------------------------------------------------ *)
+(* 3. stream faults                                                                           *)
+(* ------------------------------------------------------------------------------------------ *)
+(* Any number of sessions, each cut after any number of delivered messages (the stream broke, the leader restarted,
+   the follower reconnected with whatever index it had reached), any of the follower's own SaveRegion calls failing:
+   the follower's cache is the replay, in order, of exactly the regions that were delivered. *)
+Theorem C16_sessions_replay :
+  forall ss f, f_cache (fold_left run_session ss f) = fold_left check_and_put (concat (map delivered ss)) (f_cache f).
+Proof. exact sessions_replay_pf. Qed.
+
+(* A full synchronisation cut after any number of batches: the follower holds exactly a prefix of the leader's region
+   list, every region of it with the leader's range, peers, leader and statistics. *)
+Theorem C16_cut_full_sync :
+  forall cap kv regions k fails,
+    region_set regions -> leaders_valid regions ->
+    let f := run_session (finit cap kv) (Sess (full_sync_impl regions) k fails) in
+    exists j, f_cache f = rev (firstn j regions) /\
+              forall r, In r (firstn j regions) -> find_id (f_cache f) (m_id (meta r)) = Some r.
+Proof. exact cut_full_sync_pf. Qed.
+
+(* Convergence after reconnection: wherever the first attempt was cut, a later full synchronisation that completes
+   leaves the follower with every region of the leader. *)
+Theorem C16_reconnect_full_sync_converges :
+  forall cap kv regions k fails fails2,
+    region_set regions -> leaders_valid regions ->
+    let f1 := run_session (finit cap kv) (Sess (full_sync_impl regions) k fails) in
+    let ms := full_sync_impl regions in
+    let f2 := run_session f1 (Sess ms (length ms) fails2) in
+    forall r, In r regions -> find_id (f_cache f2) (m_id (meta r)) = Some r.
+Proof. exact reconnect_full_sync_converges_pf. Qed.
+
+(* the follower's index after a message with failing saves: start index + the saves that succeeded (so the next
+   message finds a mismatch and resets it) *)
+Theorem C16_follower_index_with_failed_saves :
+  forall f m oks,
+    next_index (buf (f_hist (apply_msg_ok f m oks))) =
+    g_start m + Z.of_nat (length (filter snd (with_oks (decode m) oks))).
+Proof. exact follower_index_after_msg_ok_pf. Qed.
+
 (* non-vacuity: a capacity-3 buffer that wraps twice, is read at both window edges, reset and restarted *)
 Example C16_buffer_nonvacuous :
   run brun_op (binit 3)
@@ -157,6 +206,11 @@ Print Assumptions C16_ring_refines_log.
 Print Assumptions C16_records_from_exact.
 Print Assumptions C16_window_is_last_cap_records.
 Print Assumptions C16_restart_index_lag.
+Print Assumptions C16_restart_index_lag_with_failed_flushes.
+Print Assumptions C16_sessions_replay.
+Print Assumptions C16_cut_full_sync.
+Print Assumptions C16_reconnect_full_sync_converges.
+Print Assumptions C16_follower_index_with_failed_saves.
 Print Assumptions C16_follower_equals_leader_for_sent.
 Print Assumptions C16_follower_equals_leader_if_all_truncated.
 Print Assumptions C16_code_truncates.
